@@ -1,5 +1,5 @@
 import MechVerif.Driver.Scalar
-import MechVerif.Model.Convert
+import MechVerif.Model.ConvertTable
 namespace MechVerif.Driver
 open MechVerif.Num MechVerif.Scalar MechVerif.Mat MechVerif.Convert MechVerif.FloatX
 
@@ -42,16 +42,17 @@ def runC12 (fields : List String) (obs : String) : String × String × String :=
   match fields.filter (fun f => !f.startsWith "form=") with
   | ["optempty", _] => eqv "empty"
   | ["convopt", k1n, k2n, ot] =>
-    -- an option kind `k2?` takes a value exactly as `k2` does, or refuses it: the pinned commit accepts only
-    -- the source kinds it regards as implicitly convertible (which pairs those are is not modelled), so a
-    -- refusal is accepted and a value must be the faithful one
+    -- an option kind `k2?` takes a value exactly as `k2` does, or refuses it (either satisfies the property).  Which of
+    -- the two happens is modelled: the value goes through `Value::convert_to`, which converts exactly the pairs
+    -- `ValueKind::is_convertible_to` lists (`implicitlyConvertible`, tied to the source by Gen/ConvertTables.lean)
+    -- and hands a value of the target kind back unchanged
     (match kindOfName k1n, kindOfName k2n with
      | some k1, some k2 =>
        (match parseOperand k1 ot with
         | some (.scalar v) =>
           let spec := match convertScalar hwConv k1 k2 v with | .ok y => operandText k2 (.scalar y) | .error _ => "err"
-          let model := match convertScalarImpl hwConv k1 k2 v with | .ok y => operandText k2 (.scalar y) | .error _ => "err"
-          if obs == "err" then ("err", "ok", "-") else res model spec "C12-D2"
+          let model := if implicitlyConvertible k1 k2 then spec else "err"
+          (model, if obs == "err" || obs == spec then "ok" else "bad:expected " ++ spec, "-")
         | _ => ("bad-case", "bad-case", "-"))
      | _, _ => ("bad-case", "bad-case", "-"))
   | ["conv", k1n, k2n, ot] =>
